@@ -94,24 +94,25 @@ NOT_YET = "check not built yet in this round (see DESIGN.md section 4 for the pl
 
 
 PRELUDE = " Every harness process first makes one of three call sequences (none / tweakable family first / plain family first, by shard) so that lazily built global state cannot hide behind one process history; the schedule or object passed as const to a data call is compared with its image before the call."
+ARGS = " Key, tweak and counter arguments of the object setters are scratch copies that are overwritten as soon as the call returns (the library has to have copied what it needs)."
 PRIOR = " Handles are painted (poisoned under MemorySanitizer) before every init and schedule objects hold a pattern before their first key-setting call."
 EXTRA = {
-    "C01": PRELUDE + " Keys are handed over in a buffer of their own followed by a fixed non-zero pattern; the byte copies of schedules sit at every natural alignment within 32 bytes. Builds: shipped, 32-bit words, no unaligned access, byte-order-neutral (no SIMD), clang.", "C02": PRELUDE + " Builds: shipped, 32-bit words, no unaligned access, byte-order-neutral (no SIMD), clang.",
-    "C03": PRELUDE + PRIOR + " The Mantis closure world also has a const-use operation (ecb_crypt_tweaked with its own tweak); parallel round trips are repeated in place; the closure and the round trips also run on the 32-bit-word, no-unaligned-access, byte-order-neutral and clang builds.",
+    "C01": PRELUDE + " Keys are handed over in a buffer of their own followed by a fixed non-zero pattern; the byte copies of schedules sit at every natural alignment within 32 bytes and, every fourth one, flush against an unreadable page (before or after); a fatal signal inside a case is that case's violation. Builds: shipped, 32-bit words, no unaligned access, byte-order-neutral (no SIMD), clang.", "C02": PRELUDE + " Every per-call-tweak case is repeated with one buffer as tweak, input and output. Builds: shipped, 32-bit words, no unaligned access, byte-order-neutral (no SIMD), clang.",
+    "C03": PRELUDE + PRIOR  + ARGS + " The Mantis closure world also has a const-use operation (ecb_crypt_tweaked with its own tweak); parallel round trips are repeated in place; the closure and the round trips also run on the 32-bit-word, no-unaligned-access, byte-order-neutral and clang builds.",
     "C04": PRELUDE + PRIOR + " CTR kinds include data calls between tweak changes; refused re-keys (too short, too long, the plain API's three-block size) are operations of the worlds; the conformance families and the (quick-alphabet) closure also run on the byte-order-neutral, no-unaligned-access and clang builds.",
-    "C05": PRELUDE + PRIOR + " A later set_counter (after data or straight after a first one) is explored with the NULL forms and a short counter as well. Thorough: a length across 2^16 bytes, and one in-place request of more than 2^32 bytes per cipher (sampled blocks against the model). A re-key straight after a tweak change, before any data, is in the alphabet. Builds: shipped, 32-bit words, no unaligned access, byte-order-neutral (no SIMD), clang.", "C06": PRELUDE + PRIOR + " Builds: shipped, 32-bit words, no unaligned access, clang; invalid lengths equal to a legal one modulo 2^8 / 2^16 are operations of the worlds.",
-    "C07": PRELUDE + PRIOR + " Data families other than the first run on buffers whose offsets from a 32-byte boundary walk through 0..15; Mantis tweak arrays come from six structured families; counts up to 8193 blocks (across 2^16 bytes); also on the 32-bit-word, no-unaligned-access and clang builds. Thorough: one in-place request of 2^32 bytes + 9 blocks per entry point and vector back end, sampled blocks against the single-block functions (about 4.3 GiB per cipher).",
-    "C09": " The second request of a stream (first request ending block-aligned or not inside a batch; second request up to almost four batches, both buffers 32-byte aligned among the placements) is placed between red zones as well; a faulting call is attributed to its case by the forked runner; every reported placement is re-executed alone under memcheck before it is printed.",
+    "C05": PRELUDE + PRIOR + " A later set_counter (after data or straight after a first one) is explored with the NULL forms and a short counter as well. Thorough: a length across 2^16 bytes, and one in-place request of more than 2^32 bytes per cipher (sampled blocks against the model). A re-key straight after a tweak change, before any data, is in the alphabet." + ARGS + " Builds: shipped, 32-bit words, no unaligned access, byte-order-neutral (no SIMD), clang.", "C06": PRELUDE + PRIOR + ARGS + " Builds: shipped, 32-bit words, no unaligned access, clang; invalid lengths equal to a legal one modulo 2^8 / 2^16 are operations of the worlds.",
+    "C07": PRELUDE + PRIOR  + ARGS + " Data families other than the first run on buffers whose offsets from a 32-byte boundary walk through 0..15; Mantis tweak arrays come from six structured families; in two of the data families the input (when it is not also the output) and the tweak array end, respectively begin, at an unreadable page; counts up to 8193 blocks (across 2^16 bytes); also on the 32-bit-word, no-unaligned-access and clang builds. Thorough: one in-place request of 2^32 bytes + 9 blocks per entry point and vector back end, sampled blocks against the single-block functions (about 4.3 GiB per cipher).",
+    "C09": " The second request of a stream (first request ending block-aligned or not inside a batch; second request up to almost four batches, both buffers 32-byte aligned among the placements) is placed between red zones as well; regions that hold pure inputs (key, tweak, counter, data that is not also the output, key schedules of the single-block calls) are read-only for the duration of the call, with the red zones re-established after the protection change; the Mantis per-call tweak may be the input block itself (also in place), the per-block tweak array the input array; a faulting call is attributed to its case by the forked runner; every reported placement is re-executed alone under memcheck before it is printed.",
     "C10": PRELUDE + " Wrap-around length candidates (2^32 - v, 2^k + multiples of the block for k >= 24, 2^k + every length up to one past the longest key for k = 8..23) are included; prior objects carry a non-zero tweak.",
     "C11": " The C06 worlds (re-keying and tweak changes outside the stream regime) and the allocation-failure histories of C16 are part of the histories; heap blocks the library did not request cleared are filled with the paint pattern of the run and poisoned under MemorySanitizer; canonical state images carry a signature of which bytes MemorySanitizer holds uninitialised, so a state whose bytes are right by accident is not merged with the clean one; every reported case is re-executed alone before it is printed.",
     "C12": " The driver takes COMMON_CFLAGS, STDC_CFLAGS, VEC128_CFLAGS and VEC256_CFLAGS from the tree's own options.mak for the shipped configuration; the parallel section puts buffers at odd offsets and uses structured tweak arrays, the CTR section seeks inside a buffered batch; a battery that dies in one configuration is a violation.",
-    "C13": " The caller's object is painted with the pattern of the case before each init, the builds include one with no SIMD back end compiled in and one with only the 128-bit back ends compiled out (real CPU and model), both entries of the parallel function tables are identified, the first and second allocation request of every init are refused on the real CPU (an init that still succeeds must have made the right selection), and every instruction of every object of the library as src/Makefile and options.mak build it is decoded: only the two 256-bit back-end objects may contain instructions beyond the x86-64 baseline with SSE2.",
-    "C14": PRELUDE + PRIOR + " Invalid classes include combinations (NULL pointer together with an out-of-range length), Mantis round counts equal to a legal one modulo 32 and modulo 2^31, ragged parallel sizes containing whole batches in both directions and, for Mantis parallel objects, both directions for the keyed object and for the invalid call; lengths equal to a legal one modulo 2^8 / 2^16; decrypt calls on zeroed and cleaned-up objects.",
-    "C15": PRELUDE + PRIOR + " The alphabet includes a zero-length request and an init whose first allocation request is refused (the object is dead afterwards), and the decrypt entry point of the Skinny parallel objects. Builds: shipped (full depth), 32-bit words, no unaligned access, byte-order-neutral (depth 6).",
-    "C16": PRELUDE + " The object of the failing init sits between canary bytes with exactly the library's handle type as its extent; the follow-up menu has both data entry points; builds: shipped, 32-bit words, byte-order-neutral.", "C17": PRELUDE + PRIOR + " Re-keying with the shortest key after the longest is part of the alphabet; a block that cleanup keeps allocated must not hold more than 8 non-zero bytes; builds: shipped, clang, 32-bit words, no unaligned access, byte-order-neutral.",
-    "C18": " Operations on private objects use in-between key lengths as well as the standard ones; two operations write adjacent byte-exact slices of one array from distinct objects; signal()/sigaction() calls from inside an operation are reported (link-time wrap); structural part: no object of libskinny.a as built by src/Makefile has a non-empty writable data section (.data.rel.ro* excepted).",
-    "C19": " Every case and every history runs on a fresh object; CTR sequences include a mid-stream setKey and setCounterSize at three places of the call order; wrong lengths include the right one plus 2^8, 2^16 and 2^32.",
-    "C20": " Option order rotates with the case index and every second case finds its output paths already existing with more bytes than the tool will write.",
+    "C13": " The caller's object is painted with the pattern of the case before each init, the builds include one with no SIMD back end compiled in and one with only the 128-bit back ends compiled out (real CPU and model), an init that dies is attributed to its case, both entries of the parallel function tables are identified, the first and second allocation request of every init are refused on the real CPU (an init that still succeeds must have made the right selection), and every instruction of every object of the library as src/Makefile and options.mak build it is decoded: only the two 256-bit back-end objects may contain instructions beyond the x86-64 baseline with SSE2.",
+    "C14": PRELUDE + PRIOR  + ARGS + " Invalid classes include combinations (NULL pointer together with an out-of-range length), Mantis round counts equal to a legal one modulo 32 and modulo 2^31, ragged parallel sizes containing whole batches in both directions and, for Mantis parallel objects, both directions for the keyed object and for the invalid call; lengths equal to a legal one modulo 2^8 / 2^16; decrypt calls on zeroed and cleaned-up objects; the CTR worlds include the NULL counter forms as valid calls that must return 1.",
+    "C15": PRELUDE + PRIOR  + ARGS + " The alphabet includes a zero-length request and an init whose first allocation request is refused (the object is dead afterwards), a key-setting call that must be refused, and the decrypt entry point of the Skinny parallel objects. Builds: shipped (full depth), 32-bit words, no unaligned access, byte-order-neutral (depth 6).",
+    "C16": PRELUDE + ARGS + " The object of the failing init sits between canary bytes with exactly the library's handle type as its extent; the follow-up menu has both data entry points; builds: shipped, 32-bit words, byte-order-neutral.", "C17": PRELUDE + PRIOR  + ARGS + " Re-keying with the shortest key after the longest and a key-setting call that must be refused are part of the alphabet; a block that cleanup keeps allocated must not hold more than 8 non-zero bytes; builds: shipped, clang, 32-bit words, no unaligned access, byte-order-neutral.",
+    "C18": " Operations on private objects use in-between key lengths as well as the standard ones; two operations write adjacent byte-exact slices of one array from distinct objects, one sets up distinct objects from shared const key / tweak / counter buffers; signal()/sigaction() calls from inside an operation are reported (link-time wrap); structural part: no object of libskinny.a as built by src/Makefile has a non-empty writable data section (.data.rel.ro* excepted).",
+    "C19": " Every case and every history runs on a fresh object; CTR sequences include a mid-stream setKey, a mid-stream setIV and setCounterSize at three places of the call order; wrong lengths include the right one plus 2^8, 2^16 and 2^32.",
+    "C20": " Option order rotates with the case index and every second case finds its output paths already existing with more bytes than the tool will write; a tool that exits 0 without an output file is a violation.",
 }
 
 
